@@ -48,6 +48,8 @@ def _base_value(role, n, batch, dtype, seed):
         return c
     if role == "index":
         return torch.randint(0, n, (3,), generator=g)
+    if role == "index_neg":
+        return torch.tensor([-1, 0, -2])          # negative entries: normalising them must not happen in the caller's tensor
     if role == "iidx":
         return torch.randint(0, n, (*batch, n, 2), generator=g)
     if role == "ivals":
@@ -134,6 +136,9 @@ def _call(case, op, a, dtype):
     if name == "getitem_tensor":
         i = a["index"]
         return [linear_operator.to_dense(op[..., i, :]), op[..., i, i], linear_operator.to_dense(op[..., :, i])]
+    if name == "getitem_tensor_neg":
+        i = a["index_neg"]
+        return [linear_operator.to_dense(op[..., i, :]), op[..., i, i], linear_operator.to_dense(op[..., :, i]), linear_operator.to_dense(op[..., i, 1:])]
     if name == "mul_const":
         return (op * a["const"]).to_dense()
     if name == "add_tensor":
@@ -219,8 +224,14 @@ def run_case(case):
         args[role] = t
         for b in bases:
             cells.add("argument %s (%s)" % (role, lay), b)
-    dense0 = op.to_dense().clone() if op is not None else None
     msgs = []
+    INPLACE = ("refers to a single memory location", "is being used in an in-place operation", "in-place operation")
+    try:
+        dense0 = op.to_dense().clone() if op is not None else None
+    except Exception as e:  # noqa
+        dense0 = None
+        if any(k in str(e) for k in INPLACE):
+            msgs.append("densifying the operator attempts an in-place write into a tensor it does not own (%s)" % str(e).split("\n")[0][:100])
     try:
         if case["cg"]:
             with settings.max_cholesky_size(0), settings.max_cg_iterations(50), settings.min_preconditioning_size(1), settings.num_trace_samples(3):
@@ -229,6 +240,9 @@ def run_case(case):
             _call(case, op, args, dtype)
     except Exception as e:  # whether a call is supported is judged by other properties; a failed call must still not have written
         msgs_exc = "%s: %s" % (type(e).__name__, str(e).split("\n")[0][:80])
+        if any(k in str(e) for k in INPLACE):
+            # torch refused an in-place write into expanded / shared memory: the write was aimed at memory the callee does not own
+            msgs.append("the call attempts an in-place write into an expanded or shared tensor (%s)" % str(e).split("\n")[0][:100])
     else:
         msgs_exc = None
     msgs += cells.changed()
@@ -237,7 +251,7 @@ def run_case(case):
             d1 = bind.build(case["term"], dtype).to_dense()
             # the operator object must still represent the same matrix (recomputed from its own, possibly touched, tensors)
             now = type(op)(*op._args, **op._kwargs).to_dense()
-            if not torch.equal(torch.nan_to_num(now), torch.nan_to_num(dense0)):
+            if dense0 is not None and not torch.equal(torch.nan_to_num(now), torch.nan_to_num(dense0)):
                 msgs.append("the pre-existing operator now represents a different matrix")
         except Exception:
             pass
